@@ -367,6 +367,14 @@ def names_stream(ctx, rng, n):
                 if not eok or aft[0] != want_e or set(me.pin) != set(exp_names):
                     ctx.violation("C16:expand-names", f"expand_mode({mlist}) of {pins}: pins {aft[0]}, expected {want_e}", erep)
         before = {(p.basename, p.mode_name): j for p, j in m.pin_dic.items()}
+        # objects that were derived from the model before the renaming keep their own names
+        shared_src = {mk(t): j for t, j in zip(pins, idx)}
+        twin_a = L.Model(pin_dic=shared_src, Smatrix=np.arange(k * k).reshape(k, k).astype(complex))
+        twin_b = L.Model(pin_dic=shared_src, Smatrix=np.arange(k * k).reshape(k, k).astype(complex))
+        try:
+            solved_before = m.solve()
+        except Exception:
+            solved_before = None
         try:
             m.pin_mapping({mk(a): mk(b) for a, b in rho.items()})
             ok = True
@@ -389,6 +397,17 @@ def names_stream(ctx, rng, n):
         if after != want:
             ctx.violation("C16:rename-not-simultaneous", f"pin_mapping {rho} on {dict(zip(pins, idx))} gives {after}, the renaming gives {want}", rep)
             continue
+        if rho and any(rho.get(t, t) != t for t in pins):
+            if solved_before is not None and {(p.basename, p.mode_name): j for p, j in solved_before.pin_dic.items()} != before:
+                ctx.violation("C16:rename-leaks", "renaming a model also renamed the pins of a result solved from it earlier", rep)
+                continue
+            try:
+                twin_a.pin_mapping({mk(a): mk(b) for a, b in rho.items()})
+            except Exception:
+                pass
+            if {(p.basename, p.mode_name): j for p, j in twin_b.pin_dic.items()} != before or set(twin_b.pin) != {name(t) for t in pins}:
+                ctx.violation("C16:rename-leaks", "renaming one model renamed the pins of another model built from the same pin dictionary", rep)
+                continue
         if {n_: (p.basename, p.mode_name) for n_, p in m.pin.items()} != {name(t): t for t in want}:
             ctx.violation("C16:pin-mapping-table", "the name table of a renamed model does not list exactly the new names", rep)
             continue
@@ -455,12 +474,24 @@ def replay_names(ctx, data):
     if collide0:
         return False, "colliding printable names accepted at construction"
     before = {(p.basename, p.mode_name): j for p, j in m.pin_dic.items()}
+    src = {mk(t): j for j, t in enumerate(pins)}
+    twin_a, twin_b = L.Model(pin_dic=src), L.Model(pin_dic=src)
+    solved_before = m.solve()
     try:
         m.pin_mapping({mk(a): mk(b) for a, b in rho.items()})
         ok = True
     except ValueError:
         ok = False
     after = {(p.basename, p.mode_name): j for p, j in m.pin_dic.items()}
+    if ok and not collide1:
+        if {(p.basename, p.mode_name): j for p, j in solved_before.pin_dic.items()} != before:
+            return False, "renaming a model also renamed the pins of a result solved from it earlier"
+        try:
+            twin_a.pin_mapping({mk(a): mk(b) for a, b in rho.items()})
+        except Exception:
+            pass
+        if {(p.basename, p.mode_name): j for p, j in twin_b.pin_dic.items()} != before:
+            return False, "renaming one model renamed the pins of another model built from the same pin dictionary"
     if collide1:
         return (not ok and after == before), ("colliding renaming rejected, model unchanged" if (not ok and after == before) else f"colliding renaming gives {after}")
     want = {rho.get(t, t): j for j, t in enumerate(pins)}
